@@ -6,7 +6,8 @@ run():  translator (gen_lex_tables) -> ck.prove() (Props/C17.v) -> for each stre
   (S) the direct property oracle on the implementation alone: spans in bounds / on char boundaries /
       ordered / disjoint / gaps inline whitespace only / every token's slice re-lexes to that token;
       rejected input reports >= 1 error.
-Streams: hand-picked corpus; exhaustive strings over the lexical alphabet (length <= 3; thorough tier: also all of
+Streams: hand-picked corpus; word-contexts (every reserved / literal-like word of the current tables x left contexts in five position
+classes x right contexts); interp-inner (the inner lexer of s-/f-strings, Model/LexerInterp.v, vs interpolation::parse); exhaustive strings over the lexical alphabet (length <= 3; thorough tier: also all of
 length 4 when the measured rate allows it within ~15 min, else a recorded sample), a seeded sample of the next
 length; seeded random strings (noise, token soup up to ~200 chars, mutated soup).
 `./check C17 --replay <file>` re-runs both comparisons on the `src` of a recorded replay.
@@ -25,7 +26,8 @@ TRUSTED = [
     "modelled, not verified: coq/Model/Lexer.v is a hand re-statement of the chumsky combinators of lexer/mod.rs (chumsky 0.12 `choice`, `repeated`, `or_not`, `rewind`, `text::inline_whitespace`, `text::digits` semantics as read from its source); its tie to the code is this correspondence run plus the regenerated tables",
     "Rust's char::is_alphabetic / is_alphanumeric: Section variables in the theorems (hypotheses class_ok for the re-lex theorem); the executable instance Model/LexerExec.v is validated against Rust (harness `charclass`) on its whole declared domain on every run and only strings over that domain are fed to the model",
     "float payloads are compared through python float() of the model's decimal text vs serde_json's f64 (infinite -> null)",
-    "correspondence harness (harness/src/main.rs `lex` = prqlc::prql_to_tokens, serde of lr::Tokens) and the python/Coq comparison code (vplib/props/c17_lib.py, Model/LexerExec.v res_eqb)",
+    "modelled, not verified: coq/Model/LexerInterp.v is a hand re-statement of parser/interpolation.rs (interpolated_parser, interpolate_ident_part); the translator pins the text of both functions, of the span rebasing in interpolation::parse and of its call in parser/expr.rs; tie = the interp-inner correspondence stream (observed through prql_to_pl)",
+    "correspondence harness (harness/src/main.rs `lex` = prqlc::prql_to_tokens, serde of lr::Tokens; `pl` = prqlc::prql_to_pl) and the python/Coq comparison code (vplib/props/c17_lib.py, Model/LexerExec.v res_eqb, Model/LexerDecode.v: batches travel as one primitive-integer array; the transport is self-tested with a decode round trip and canaries on every run and an undecodable batch is a violation)",
 ]
 
 HEADER_BASE = ("From Coq Require Import List NArith Bool.\n"
@@ -449,7 +451,9 @@ def run():
     ck.proof_broken_violation(found_input=bool(ck.violations))
     ck.assumptions += ["strings fed to the model use only code points of the validated class domain; strings outside it go through the implementation-only oracle",
                        "the lexer is deterministic (C11): slices are re-lexed once and cached"]
-    ck.finish(TRUSTED, "a case is one source string; streams: hand corpus (%d), all strings of length <= %d over the %d-character lexical alphabet, a seeded sample of length %d, "
+    ck.finish(TRUSTED, "a case is one source string; streams: hand corpus (%d), word-contexts (reserved / literal-like words x left contexts x right contexts, %d sources), "
+              "all strings of length <= %d over the %d-character lexical alphabet, a seeded sample of length %d, "
               "seeded random strings (noise / token soup up to ~200 chars / mutated soup); every case is lexed by the implementation, checked by the direct C17 oracle "
-              "(with every token slice re-lexed) and compared with the Coq model; non-trivial = accepted with at least one real token; distinct by hashing the string"
-              % (len(L.CORPUS), n_ex, len(L.ALPHABET), k))
+              "(with every token slice re-lexed) and compared with the Coq model; interp-inner: sources that are one s-/f-string, the inner-lexer model vs interpolation::parse; "
+              "non-trivial = accepted with at least one real token (interp-inner: the source is a single interpolation token); distinct by hashing the string"
+              % (len(L.CORPUS), len(wc), n_ex, len(L.ALPHABET), k))
